@@ -108,7 +108,9 @@ class Evaluator:
                     res = res and _cmp(op, left, right)
                     left = right
                 return res
-            except NeedAtom:
+            except NeedAtom as na:
+                if na.key.startswith("len("):
+                    raise  # integer-valued term: the rule supplies its domain
                 if len(e.ops) == 1:
                     c = canon_cmp(e)
                     if c is not None:
